@@ -75,7 +75,7 @@ def witness_fn(tier):
         budget = 150 if tier == "quick" else 1500
         if group.startswith("undecided:"):
             cls = group.split(":", 1)[1].split(".")[0]
-            for law in ("L1", "L2", "L3", "L4a", "L5", "L5d", "L6", "L6v", "C05", "C08"):
+            for law in ("L1", "L2", "L3", "L4a", "L5", "L5d", "L6", "L6v", "C05", "C08", "C06"):
                 w = lawsearch.search(cls, law, seed, budget)
                 if w:
                     return w
